@@ -5,6 +5,6 @@ From JWT Require Import Base.GoSem Gen.SrcHeader Model.Decode Proofs.SrcHeader.
 Open Scope string_scope.
 
 Theorem C05_source_header_valid : forall typ alg : string,
-  V2.Header_Valid typ alg = None <-> header_valid typ alg = true.
+  V2.Header_Valid alg typ = None <-> header_valid typ alg = true.
 Proof. exact src_header_valid. Qed.
 Print Assumptions C05_source_header_valid.
